@@ -13,8 +13,10 @@ impl LineIndex {
         line_offsets.push(0);
 
         let mut is_line_only_ascii = true;
-        for (index, byte) in text.as_bytes().iter().copied().enumerate() {
-            if byte == b'\n' {
+        let bytes = text.as_bytes();
+        for (index, byte) in bytes.iter().copied().enumerate() {
+            // LSP line terminators: "\n", "\r\n" and a lone "\r"
+            if byte == b'\n' || (byte == b'\r' && bytes.get(index + 1) != Some(&b'\n')) {
                 line_offsets.push((index + 1) as u32);
                 line_only_ascii_vec.push(is_line_only_ascii);
                 is_line_only_ascii = true;
@@ -76,7 +78,7 @@ impl LineIndex {
             Some(usize::from(offset - start_offset))
         } else {
             let text = &source_text[usize::from(start_offset)..usize::from(offset)];
-            Some(text.chars().count())
+            Some(text.chars().map(char::len_utf16).sum())
         }
     }
 
@@ -87,7 +89,7 @@ impl LineIndex {
             Some((line, usize::from(offset - start_offset)))
         } else {
             let text = &source_text[usize::from(start_offset)..usize::from(offset)];
-            Some((line, text.chars().count()))
+            Some((line, text.chars().map(char::len_utf16).sum()))
         }
     }
 
@@ -98,22 +100,46 @@ impl LineIndex {
             return Some(start_offset);
         }
 
-        if self.is_line_only_ascii_index(line) {
-            let col = col.min(source_text.len());
-            Some(start_offset + TextSize::from(col as u32))
-        } else {
-            let mut offset = 0;
-            let mut col = col;
-            for c in source_text[usize::from(start_offset)..].chars() {
-                if col == 0 {
-                    break;
-                }
+        let offset = self.col_to_line_relative_offset(line, start_offset, col, source_text);
+        Some(start_offset + TextSize::from(offset as u32))
+    }
 
-                offset += c.len_utf8();
-                col -= 1;
-            }
-            Some(start_offset + TextSize::from(offset as u32))
+    /// Byte offset, relative to the line start, of the UTF-16 column `col` on `line`.
+    /// A column past the end of the line clamps to the end of the line (before its terminator).
+    fn col_to_line_relative_offset(
+        &self,
+        line: usize,
+        start_offset: TextSize,
+        col: usize,
+        source_text: &str,
+    ) -> usize {
+        let start = usize::from(start_offset).min(source_text.len());
+        let end = self
+            .line_offsets
+            .get(line + 1)
+            .map(|&next| next as usize)
+            .unwrap_or(source_text.len())
+            .min(source_text.len());
+        let line_text = &source_text[start..end];
+        let line_text = line_text
+            .strip_suffix("\r\n")
+            .or_else(|| line_text.strip_suffix('\n'))
+            .or_else(|| line_text.strip_suffix('\r'))
+            .unwrap_or(line_text);
+        if self.is_line_only_ascii_index(line) {
+            return col.min(line_text.len());
         }
+
+        let mut offset = 0;
+        let mut units = 0;
+        for c in line_text.chars() {
+            if units + c.len_utf16() > col {
+                break;
+            }
+            units += c.len_utf16();
+            offset += c.len_utf8();
+        }
+        offset
     }
 
     pub fn get_col_offset_at_line(
@@ -127,21 +153,7 @@ impl LineIndex {
             return Some(0.into());
         }
 
-        if self.is_line_only_ascii_index(line) {
-            let col = col.min(source_text.len());
-            Some(TextSize::from(col as u32))
-        } else {
-            let mut offset = 0;
-            let mut col = col;
-            for c in source_text[usize::from(start_offset)..].chars() {
-                if col == 0 {
-                    break;
-                }
-
-                offset += c.len_utf8();
-                col -= 1;
-            }
-            Some(TextSize::from(offset as u32))
-        }
+        let offset = self.col_to_line_relative_offset(line, start_offset, col, source_text);
+        Some(TextSize::from(offset as u32))
     }
 }
